@@ -9,7 +9,7 @@
    Atomicity of MemMapFs's exclusive create under real concurrency is property C04's business and is
    NOT proved here (today it does not hold: lookup and creation are two critical sections). *)
 From AF Require Import Lib.Bytes Lib.Path Lib.Ops Gen.Consts Model.MemFile Model.MemFs Model.Temp
-  Proofs.BytesLemmas Proofs.PathProof Proofs.MemFsBasics Proofs.MemCreate.
+  Proofs.BytesLemmas Proofs.PathProof Proofs.MemFsBasics Proofs.MemBelow Proofs.MemCreate.
 Local Open Scope Z_scope.
 
 (* ------------------------------------------------------------------------------------ *)
@@ -460,23 +460,24 @@ Definition created (s s1 : mst) (name : str) (d : nat) (dn : node) : Prop :=
   (exists nf, get_node s1 f = Some nf) /\ get_node s1 d = Some (kid_added name f dn) /\
   (forall x, x <> d -> x <> f -> get_node s1 x = get_node s x).
 
-Definition is_dir_node (s : mst) (k : str) : Prop :=
-  exists d dn, lookup s k = Some d /\ get_node s d = Some dn /\ nhasdir dn = true.
+(* the name is bound to a node (a directory or a regular file) *)
+Definition node_present (s : mst) (k : str) : Prop :=
+  exists d dn, lookup s k = Some d /\ get_node s d = Some dn.
 
 Lemma created_facts s s1 name d dn :
   mem_wf s -> lookup s name = None -> normalize_path name = name ->
-  get_node s d = Some dn -> nhasdir dn = true -> created s s1 name d dn ->
+  get_node s d = Some dn -> ndir dn = true -> created s s1 name d dn ->
   mview s1 name <> None /\ (forall m, mview s m <> None -> mview s1 m = mview s m) /\ mem_wf s1 /\
-  (forall k, is_dir_node s k -> is_dir_node s1 k).
+  (forall k, node_present s k -> node_present s1 k).
 Proof.
   intros Hwf Hnone Hnorm Hd Hhd [Hmd [Hlen [[nf Hnf] [Hdn Hoth]]]]. set (f := length (mheap s)) in *.
   assert (Hdlt : (d < f)%nat) by (apply get_node_lt in Hd; exact Hd).
   assert (Hl1 : forall k, lookup s1 k = if beqb k name then Some f else lookup s k).
   { intros k. unfold lookup. rewrite Hmd. apply alist_get_set. }
-  assert (Hkid : forall dn0, nhasdir dn0 = true ->
+  assert (Hkid : forall dn0, ndir dn0 = true ->
             (ndir (kid_added name f dn0), ndata (kid_added name f dn0), nmode (kid_added name f dn0), nmtime (kid_added name f dn0))
-            = (ndir dn0, ndata dn0, nmode dn0, nmtime dn0) /\ nhasdir (kid_added name f dn0) = true).
-  { intros dn0 H0. unfold kid_added, init_dir. rewrite H0. now split. }
+            = (ndir dn0, ndata dn0, nmode dn0, nmtime dn0)).
+  { intros dn0 H0. unfold kid_added, init_dir. destruct (nhasdir dn0); cbn; now rewrite ?H0. }
   repeat split.
   - unfold mview. rewrite Hnorm, Hl1, beqb_refl. discriminate.
   - intros m Hm. unfold mview in *. destruct (lookup s (normalize_path m)) as [x|] eqn:El; [|congruence].
@@ -489,11 +490,11 @@ Proof.
   - intros k v Hk. rewrite Hl1 in Hk. rewrite Hlen. destruct (beqb k name).
     + inversion Hk. lia.
     + apply Hwf in Hk. fold f in Hk. lia.
-  - intros k [x [nx [Hk [Hx Hh]]]].
+  - intros k [x [nx [Hk Hx]]].
     assert (Hkn : beqb k name = false) by (apply beqb_false_iff; intros ->; congruence).
     exists x. destruct (Nat.eq_dec x d) as [->|Hxd].
-    + exists (kid_added name f dn). rewrite Hl1, Hkn. repeat split; try assumption. now apply Hkid.
-    + exists nx. rewrite Hl1, Hkn. repeat split; try assumption.
+    + exists (kid_added name f dn). rewrite Hl1, Hkn. now split.
+    + exists nx. rewrite Hl1, Hkn. split; [exact Hk|].
       rewrite Hoth; [exact Hx | exact Hxd |]. apply get_node_lt in Hx. fold f in Hx. lia.
 Qed.
 
@@ -524,14 +525,14 @@ Proof. intros H. unfold set_file_mode. now rewrite H. Qed.
 (* ... on a free name whose parent directory is present: exactly that entry is created *)
 Lemma excl_open_fresh s n perm d dn :
   let name := normalize_path n in
-  lookup s name = None -> lookup s (parent_key name) = Some d -> get_node s d = Some dn ->
+  lookup s name = None -> lookup s (parent_key name) = Some d -> get_node s d = Some dn -> ndir dn = true ->
   exists s1, m_step s (OpenFile n temp_flags perm) = (s1, RHandle (length (mhandles s))) /\
              created s s1 name d dn.
 Proof.
-  intros name Hnone Hp Hd.
+  intros name Hnone Hp Hd Hdir.
   assert (Hne : parent_key name <> name) by (intros E; rewrite E in Hp; congruence).
   rewrite m_step_bump. cbn [m_step_raw]. unfold m_openfile. fold name.
-  rewrite Hnone, tflags_create, tflags_append, tflags_trunc, tflags_ro. cbn [andb negb].
+  rewrite Hnone, tflags_create, (below_file_parent_dir s name d dn Hp Hd Hdir), tflags_append, tflags_trunc, tflags_ro. cbn [andb negb].
   rewrite m_create_node_attach.
   destruct (attach_parent_present s name (new_file name (mclock s)) 0 d dn eq_refl Hp Hd Hne)
     as [Hmd [Hhd [Hck [Hlen [Hf [Hdn Hoth]]]]]].
@@ -559,17 +560,37 @@ Proof.
   destruct (lookup s (normalize_path n)); [reflexivity | congruence].
 Qed.
 
+(* ... on a free name whose parent is a REGULAR FILE: ENOTDIR, nothing changes (memmap.go
+   lockfreeBelowFile; before that repair the entry was created and the regular file became a directory) *)
+Lemma excl_open_below_file s n perm d dn :
+  let name := normalize_path n in
+  lookup s name = None -> lookup s (parent_key name) = Some d -> get_node s d = Some dn -> ndir dn = false ->
+  m_step s (OpenFile n temp_flags perm) = (bump s, RErr (EW KENOTDIR)).
+Proof.
+  intros name Hnone Hp Hd Hdir. rewrite m_step_bump. cbn [m_step_raw]. unfold m_openfile. fold name.
+  now rewrite Hnone, tflags_create, (below_file_parent_file s name d dn Hp Hd Hdir).
+Qed.
+
+Lemma mkdir_below_file s n perm d dn :
+  let name := normalize_path n in
+  lookup s name = None -> lookup s (parent_key name) = Some d -> get_node s d = Some dn -> ndir dn = false ->
+  m_step s (Mkdir n perm) = (bump s, RErr (EW KENOTDIR)).
+Proof.
+  intros name Hnone Hp Hd Hdir. rewrite m_step_bump. cbn [m_step_raw]. unfold m_mkdir. fold name.
+  now rewrite Hnone, (below_file_parent_file s name d dn Hp Hd Hdir).
+Qed.
+
 Lemma mkdir_fresh s n perm d dn :
   let name := normalize_path n in
-  lookup s name = None -> lookup s (parent_key name) = Some d -> get_node s d = Some dn ->
+  lookup s name = None -> lookup s (parent_key name) = Some d -> get_node s d = Some dn -> ndir dn = true ->
   exists s1, m_step s (Mkdir n perm) = (s1, ROk) /\ created s s1 name d dn.
 Proof.
-  intros name Hnone Hp Hd.
+  intros name Hnone Hp Hd Hdir.
   assert (Hne : parent_key name <> name) by (intros E; rewrite E in Hp; congruence).
   set (nd := with_mode (Z.lor mode_dir (Z.land perm chmod_bits)) (new_dir name (mclock s))).
   assert (Emk : m_mkdir s n perm =
                 set_file_mode (attach s name nd (Z.land perm chmod_bits)) name (Z.lor (Z.land perm chmod_bits) mode_dir)).
-  { unfold m_mkdir. fold name. rewrite Hnone. reflexivity. }
+  { unfold m_mkdir. fold name. rewrite Hnone, (below_file_parent_dir s name d dn Hp Hd Hdir). reflexivity. }
   rewrite m_step_bump. cbn [m_step_raw]. rewrite Emk.
   destruct (attach_parent_present s name nd (Z.land perm chmod_bits) d dn eq_refl Hp Hd Hne)
     as [Hmd [Hhd [Hck [Hlen [Hf [Hdn Hoth]]]]]].
@@ -590,16 +611,17 @@ Qed.
 Section MemInstance.
 Variable dirs : str -> Prop.          (* the directories the calls name (effective, non-empty) *)
 
-(* state invariant: the path map points into the heap and every such directory is a directory *)
+(* state invariant: the path map points into the heap and every such directory exists — as a
+   directory, or as a regular file: then every attempt is refused with ENOTDIR *)
 Definition mem_good (s : mst) : Prop :=
-  mem_wf s /\ forall dir, dirs dir -> is_dir_node s (normalize_path dir).
+  mem_wf s /\ forall dir, dirs dir -> node_present s (normalize_path dir).
 Definition mem_cand (n : str) : Prop :=
   exists dir b, dirs dir /\ dir <> [] /\ good_seg b /\ n = join2 dir b.
 Definition mem_is_create (mk : str -> op) : Prop := mk = temp_file_op \/ mk = temp_dir_op.
 
 Lemma mem_cand_parent s n : mem_good s -> mem_cand n ->
   normalize_path n = n /\
-  exists d dn, lookup s (parent_key n) = Some d /\ get_node s d = Some dn /\ nhasdir dn = true.
+  exists d dn, lookup s (parent_key n) = Some d /\ get_node s d = Some dn.
 Proof.
   intros [_ Hd] [dir [b [Hdir [Hne [Hb ->]]]]].
   destruct (join2_good_split dir b Hne Hb) as [_ [H2 [H3 _]]]. split; [exact H3|].
@@ -616,24 +638,31 @@ Proof. now intros H. Qed.
 Lemma mem_create_cases mk s n s' r : mem_is_create mk -> mem_good s -> mem_cand n ->
   m_step s (mk n) = (s', r) ->
   (lookup s n <> None /\ r = RErr (EW KExist) /\ s' = bump s) \/
+  (lookup s n = None /\ r = RErr (EW KENOTDIR) /\ s' = bump s) \/
   (lookup s n = None /\ (r = ROk \/ exists h, r = RHandle h) /\
-   exists d dn, get_node s d = Some dn /\ nhasdir dn = true /\ created s s' n d dn).
+   exists d dn, get_node s d = Some dn /\ ndir dn = true /\ created s s' n d dn).
 Proof.
-  intros Hmk Hg Hc H. destruct (mem_cand_parent s n Hg Hc) as [Hn [d [dn [Hp [Hd Hh]]]]].
+  intros Hmk Hg Hc H. destruct (mem_cand_parent s n Hg Hc) as [Hn [d [dn [Hp Hd]]]].
   destruct (lookup s n) as [x|] eqn:El.
   - left. split; [discriminate|].
     assert (Hex : lookup s (normalize_path n) <> None) by (rewrite Hn, El; discriminate).
     destruct Hmk as [-> | ->]; unfold temp_file_op, temp_dir_op in H.
     + rewrite (excl_open_existing _ _ _ Hex) in H. inversion H; now subst.
     + rewrite (mkdir_existing _ _ _ Hex) in H. inversion H; now subst.
-  - right. split; [reflexivity|].
+  - right.
     assert (Hnone : lookup s (normalize_path n) = None) by now rewrite Hn.
     assert (Hp' : lookup s (parent_key (normalize_path n)) = Some d) by now rewrite Hn.
-    destruct Hmk as [-> | ->]; unfold temp_file_op, temp_dir_op in H.
-    + destruct (excl_open_fresh s n 384 d dn Hnone Hp' Hd) as [s1 [E Hcr]]. rewrite E in H. inversion H; subst.
-      split; [right; now eexists|]. exists d, dn. rewrite Hn in Hcr. split; [exact Hd|]. split; [exact Hh | exact Hcr].
-    + destruct (mkdir_fresh s n 448 d dn Hnone Hp' Hd) as [s1 [E Hcr]]. rewrite E in H. inversion H; subst.
-      split; [now left|]. exists d, dn. rewrite Hn in Hcr. split; [exact Hd|]. split; [exact Hh | exact Hcr].
+    destruct (ndir dn) eqn:Hh.
+    + right. split; [reflexivity|].
+      destruct Hmk as [-> | ->]; unfold temp_file_op, temp_dir_op in H.
+      * destruct (excl_open_fresh s n 384 d dn Hnone Hp' Hd Hh) as [s1 [E Hcr]]. rewrite E in H. inversion H; subst.
+        split; [right; now eexists|]. exists d, dn. rewrite Hn in Hcr. split; [exact Hd|]. split; [exact Hh | exact Hcr].
+      * destruct (mkdir_fresh s n 448 d dn Hnone Hp' Hd Hh) as [s1 [E Hcr]]. rewrite E in H. inversion H; subst.
+        split; [now left|]. exists d, dn. rewrite Hn in Hcr. split; [exact Hd|]. split; [exact Hh | exact Hcr].
+    + left. split; [reflexivity|].
+      destruct Hmk as [-> | ->]; unfold temp_file_op, temp_dir_op in H.
+      * rewrite (excl_open_below_file s n 384 d dn Hnone Hp' Hd Hh) in H. inversion H; now subst.
+      * rewrite (mkdir_below_file s n 448 d dn Hnone Hp' Hd Hh) in H. inversion H; now subst.
 Qed.
 
 Lemma mem_contract_ok mk s n s' r : mem_is_create mk -> mem_good s -> mem_cand n -> m_step s (mk n) = (s', r) ->
@@ -641,7 +670,8 @@ Lemma mem_contract_ok mk s n s' r : mem_is_create mk -> mem_good s -> mem_cand n
   mview s n = None /\ mview s' n <> None /\ (forall m, mview s m <> None -> mview s' m = mview s m) /\ mem_good s'.
 Proof.
   intros Hmk Hg Hc H Hr. destruct (mem_cand_parent s n Hg Hc) as [Hn _].
-  destruct (mem_create_cases _ _ _ _ _ Hmk Hg Hc H) as [[_ [-> _]] | [Hnone [_ [d [dn [Hd [Hh Hcr]]]]]]].
+  destruct (mem_create_cases _ _ _ _ _ Hmk Hg Hc H) as [[_ [-> _]] | [[_ [-> _]] | [Hnone [_ [d [dn [Hd [Hh Hcr]]]]]]]].
+  - destruct Hr as [Hr | [h Hr]]; discriminate.
   - destruct Hr as [Hr | [h Hr]]; discriminate.
   - destruct Hg as [Hwf Hdirs].
     destruct (created_facts s s' n d dn Hwf Hnone Hn Hd Hh Hcr) as [H1 [H2 [H3 H4]]].
@@ -653,27 +683,31 @@ Lemma mem_contract_err mk s n s' e : mem_is_create mk -> mem_good s -> mem_cand 
   m_step s (mk n) = (s', RErr e) -> (forall m, mview s' m = mview s m) /\ mem_good s'.
 Proof.
   intros Hmk Hg Hc H.
-  destruct (mem_create_cases _ _ _ _ _ Hmk Hg Hc H) as [[_ [_ ->]] | [_ [[Hr | [h Hr]] _]]]; try discriminate.
-  split; [reflexivity | now apply mem_good_bump].
+  destruct (mem_create_cases _ _ _ _ _ Hmk Hg Hc H) as [[_ [_ ->]] | [[_ [_ ->]] | [_ [[Hr | [h Hr]] _]]]]; try discriminate.
+  - split; [reflexivity | now apply mem_good_bump].
+  - split; [reflexivity | now apply mem_good_bump].
 Qed.
 
 Lemma mem_contract_total mk s n s' r : mem_is_create mk -> mem_good s -> mem_cand n -> m_step s (mk n) = (s', r) ->
   r = ROk \/ (exists h, r = RHandle h) \/ exists e, r = RErr e.
 Proof.
   intros Hmk Hg Hc H.
-  destruct (mem_create_cases _ _ _ _ _ Hmk Hg Hc H) as [[_ [-> _]] | [_ [[-> | [h ->]] _]]].
+  destruct (mem_create_cases _ _ _ _ _ Hmk Hg Hc H) as [[_ [-> _]] | [[_ [-> _]] | [_ [[-> | [h ->]] _]]]].
+  - right. right. now eexists.
   - right. right. now eexists.
   - now left.
   - right. left. now eexists.
 Qed.
 
-(* a failed exclusive create leaves path map and nodes exactly as they were *)
+(* a failed exclusive create leaves path map and nodes exactly as they were; the error is EEXIST
+   (the loop goes on) or ENOTDIR (the directory is a regular file: the loop stops) *)
 Lemma mem_failed_create_view mk s n s' e : mem_is_create mk -> mem_good s -> mem_cand n ->
-  m_step s (mk n) = (s', RErr e) -> fs_view s' = fs_view s /\ is_exist e = true.
+  m_step s (mk n) = (s', RErr e) -> fs_view s' = fs_view s /\ (is_exist e = true \/ e = EW KENOTDIR).
 Proof.
   intros Hmk Hg Hc H.
-  destruct (mem_create_cases _ _ _ _ _ Hmk Hg Hc H) as [[_ [Hr ->]] | [_ [[Hr | [h Hr]] _]]]; try discriminate.
-  inversion Hr. now split.
+  destruct (mem_create_cases _ _ _ _ _ Hmk Hg Hc H) as [[_ [Hr ->]] | [[_ [Hr ->]] | [_ [[Hr | [h Hr]] _]]]]; try discriminate.
+  - inversion Hr. split; [reflexivity | now left].
+  - inversion Hr. split; [reflexivity | now right].
 Qed.
 
 End MemInstance.
@@ -734,7 +768,7 @@ End AbstractTheorems.
 (* on MemMapFs *)
 Definition call_sane (s : mst) (c : tcall) : Prop :=
   let '(isfile, dir, prefix, suffix) := c in
-  dir <> [] /\ slash_free prefix /\ slash_free suffix /\ is_dir_node s (normalize_path dir).
+  dir <> [] /\ slash_free prefix /\ slash_free suffix /\ node_present s (normalize_path dir).
 
 Definition call_dir (c : tcall) : str := let '(_, dir, _, _) := c in dir.
 
@@ -818,4 +852,104 @@ Proof.
   exact (conc_distinct m_step mview mem_is_create (mem_good dirs) (mem_cand dirs)
               (mem_contract_ok dirs) (mem_contract_err dirs) (or_introl eq_refl) (or_intror eq_refl)
               (mem_contract_total dirs) calls schedule s g s' g' cs Hg Hc H).
+Qed.
+
+(* ------------------------------------------------------------------------------------ *)
+(** * the requested directory is a REGULAR FILE: nothing is created, nothing changes *)
+(* (finding temp:altered-existing:parent-is-file before MemMapFs got its ancestor check: TempFile(fs,
+   "/w/iam", "t*") with /w/iam a regular file succeeded and turned that file into a directory) *)
+
+Definition is_file_node (s : mst) (k : str) : Prop :=
+  exists d dn, lookup s k = Some d /\ get_node s d = Some dn /\ ndir dn = false.
+
+Lemma is_file_node_bump s k : is_file_node s k -> is_file_node (bump s) k.
+Proof. now intros H. Qed.
+
+(* one attempt: EEXIST (a name below the regular file exists: only in a state no sequence of calls
+   reaches any more) or ENOTDIR; the state only ticks *)
+Lemma create_below_file_step mk s dir b :
+  mem_is_create mk -> dir <> [] -> good_seg b -> is_file_node s (normalize_path dir) ->
+  exists e, m_step s (mk (join2 dir b)) = (bump s, RErr e) /\ (e = EW KExist \/ e = EW KENOTDIR).
+Proof.
+  intros Hmk Hne Hb (d & dn & Hl & Hn & Hd).
+  destruct (join2_good_split dir b Hne Hb) as [_ [H2 [H3 _]]]. set (n := join2 dir b) in *.
+  assert (Hp : lookup s (parent_key (normalize_path n)) = Some d).
+  { rewrite H3. unfold parent_key. now rewrite H2, normalize_clean. }
+  destruct (lookup s (normalize_path n)) as [x|] eqn:El.
+  - exists (EW KExist). split; [|now left].
+    assert (Hex : lookup s (normalize_path n) <> None) by congruence.
+    destruct Hmk as [-> | ->]; [apply (excl_open_existing _ _ _ Hex) | apply (mkdir_existing _ _ _ Hex)].
+  - exists (EW KENOTDIR). split; [|now right].
+    destruct Hmk as [-> | ->]; [now apply (excl_open_below_file s n 384 d dn) | now apply (mkdir_below_file s n 448 d dn)].
+Qed.
+
+Lemma temp_loop_below_file mk dir prefix suffix :
+  mem_is_create mk -> dir <> [] -> slash_free prefix -> slash_free suffix ->
+  forall fuel s g nc last s' g' x,
+  is_file_node s (normalize_path dir) -> (forall nm h, last <> TempOk nm h) ->
+  temp_loop m_step mk fuel s g nc dir prefix suffix last = (s', g', x) ->
+  (forall nm h, x <> TempOk nm h) /\ fs_view s' = fs_view s /\
+  (x = last \/ x = TempErr (EW KExist) \/ x = TempErr (EW KENOTDIR)).
+Proof.
+  intros Hmk Hne Hp Hs.
+  assert (HnotokE : forall nm h, TempErr (EW KExist) <> TempOk nm h) by (intros; discriminate).
+  induction fuel as [|fuel IH]; intros s g nc last s' g' x Hf Hlast H.
+  - cbn [temp_loop] in H. inversion H; subst. split; [exact Hlast|]. split; [reflexivity | now left].
+  - cbn [temp_loop] in H. pose proof (tg_next_d9 g) as Hd9. destruct (tg_next g) as [d g1]. cbn [fst] in Hd9.
+    destruct (create_below_file_step mk s dir (prefix ++ d ++ suffix) Hmk Hne (temp_base_good _ _ _ Hp Hs Hd9) Hf)
+      as (e & E & [-> | ->]); rewrite E in H.
+    + cbn [is_exist ek EW] in H.
+      destruct (IH _ _ _ _ _ _ _ (is_file_node_bump _ _ Hf) HnotokE H) as (H1 & H2 & H3).
+      split; [exact H1|]. split; [exact H2|]. right. destruct H3 as [->|H3]; [now left | exact H3].
+    + cbn [is_exist ek EW] in H. inversion H; subst. split; [intros; discriminate|]. split; [reflexivity|]. right. now right.
+Qed.
+
+(* TempFile / TempDir into a "directory" that is a regular file never hand out a name, return an
+   error (ENOTDIR; EEXIST only if all 10000 candidates exist below that file) and leave the path map
+   and every node — that regular file included — exactly as they were *)
+Theorem temp_file_dir_is_file ostmp s g dir pattern s' g' x :
+  let dir1 := eff_dir ostmp dir in
+  let prefix := fst (temp_prefix_suffix pattern) in let suffix := snd (temp_prefix_suffix pattern) in
+  dir1 <> [] -> slash_free prefix -> slash_free suffix -> is_file_node s (normalize_path dir1) ->
+  temp_file m_step ostmp s g dir pattern = (s', g', x) ->
+  fs_view s' = fs_view s /\ exists e, x = TempErr e.
+Proof.
+  intros dir1 prefix suffix Hne Hp Hs Hf H.
+  assert (HnotokE : forall nm h, TempErr (EW KExist) <> TempOk nm h) by (intros; discriminate).
+  assert (HnotokN : forall nm h, TempNil <> TempOk nm h) by (intros; discriminate).
+  unfold temp_file in H. fold (eff_dir ostmp dir) in H. fold dir1 in H.
+  destruct (temp_refused pattern); [inversion H; subst; split; [reflexivity | now eexists]|].
+  unfold prefix, suffix in *. destruct (temp_prefix_suffix pattern) as [pre suf]. cbn [fst snd] in *.
+  destruct (temp_loop_below_file temp_file_op dir1 pre suf (or_introl eq_refl) Hne Hp Hs _ _ _ _ _ _ _ _ Hf HnotokN H) as (_ & Hv & Hx).
+  split; [exact Hv|]. assert (Hat : (0 < Z.to_nat temp_attempts)%nat) by (vm_compute; lia).
+  destruct Hx as [-> | [-> | ->]]; [|now eexists | now eexists].
+  exfalso. destruct (Z.to_nat temp_attempts) as [|n] eqn:En; [lia|]. clear Hat.
+  cbn [temp_loop] in H. pose proof (tg_next_d9 g) as Hd9. destruct (tg_next g) as [d g1]. cbn [fst] in Hd9.
+  destruct (create_below_file_step temp_file_op s dir1 (pre ++ d ++ suf) (or_introl eq_refl) Hne (temp_base_good _ _ _ Hp Hs Hd9) Hf)
+    as (e & E & [-> | ->]); rewrite E in H; cbn [is_exist ek EW] in H.
+  - destruct (temp_loop_below_file temp_file_op dir1 pre suf (or_introl eq_refl) Hne Hp Hs _ _ _ _ _ _ _ _ (is_file_node_bump _ _ Hf) HnotokE H) as (_ & _ & [Hx | [Hx | Hx]]); discriminate.
+  - inversion H.
+Qed.
+
+Theorem temp_dir_dir_is_file ostmp s g dir prefix s' g' x :
+  let dir1 := eff_dir ostmp dir in
+  dir1 <> [] -> slash_free prefix -> is_file_node s (normalize_path dir1) ->
+  temp_dir m_step ostmp s g dir prefix = (s', g', x) ->
+  fs_view s' = fs_view s /\ exists e, x = TempErr e.
+Proof.
+  intros dir1 Hne Hp Hf H.
+  assert (HnotokE : forall nm h, TempErr (EW KExist) <> TempOk nm h) by (intros; discriminate).
+  assert (HnotokN : forall nm h, TempNil <> TempOk nm h) by (intros; discriminate).
+  unfold temp_dir in H. fold (eff_dir ostmp dir) in H. fold dir1 in H.
+  destruct (temp_refused prefix); [inversion H; subst; split; [reflexivity | now eexists]|].
+  assert (Hs : slash_free []) by (intros []).
+  destruct (temp_loop_below_file temp_dir_op dir1 prefix [] (or_intror eq_refl) Hne Hp Hs _ _ _ _ _ _ _ _ Hf HnotokN H) as (_ & Hv & Hx).
+  split; [exact Hv|]. assert (Hat : (0 < Z.to_nat temp_attempts)%nat) by (vm_compute; lia).
+  destruct Hx as [-> | [-> | ->]]; [|now eexists | now eexists].
+  exfalso. destruct (Z.to_nat temp_attempts) as [|n] eqn:En; [lia|]. clear Hat.
+  cbn [temp_loop] in H. pose proof (tg_next_d9 g) as Hd9. destruct (tg_next g) as [d g1]. cbn [fst] in Hd9.
+  destruct (create_below_file_step temp_dir_op s dir1 (prefix ++ d ++ []) (or_intror eq_refl) Hne (temp_base_good _ _ _ Hp Hs Hd9) Hf)
+    as (e & E & [-> | ->]); rewrite E in H; cbn [is_exist ek EW] in H.
+  - destruct (temp_loop_below_file temp_dir_op dir1 prefix [] (or_intror eq_refl) Hne Hp Hs _ _ _ _ _ _ _ _ (is_file_node_bump _ _ Hf) HnotokE H) as (_ & _ & [Hx | [Hx | Hx]]); discriminate.
+  - inversion H.
 Qed.
